@@ -47,6 +47,36 @@ def pub_fn(path):
     return re.sub(r"(::\{closure#\d+\})+$", "", path)
 
 
+def always_performs(prog, path, pred, depth=0, memo=None):
+    """the workspace function `path` calls something matching pred (directly or through a function that always does) on every path
+    from its entry to a successful return (an `Ok(..)` return for functions returning Result, any return otherwise)"""
+    memo = {} if memo is None else memo
+    if path in memo:
+        return memo[path]
+    memo[path] = False
+    g = prog.fns.get(path)
+    if g is None or depth > 3:
+        return False
+    gcfg = cfg_of(g)
+    through = blocks_calling(g, lambda p, full, c: pred(p, full, c) or (p in prog.fns and always_performs(prog, p, pred, depth + 1, memo)))
+    rets = []
+    is_result = isinstance(g["locals"][0]["ty"], dict) and g["locals"][0]["ty"].get("path") == "core::result::Result"
+    for i, b in enumerate(g["blocks"]):
+        if is_result:
+            for s in b["stmts"]:
+                if "assign" in s and s["assign"][0]["local"] == 0 and not s["assign"][0]["proj"]:
+                    ag = s["assign"][1].get("aggregate") if isinstance(s["assign"][1], dict) else None
+                    if ag and ag.get("adt") == "core::result::Result" and ag.get("variant") == 0:
+                        rets.append(i)
+        elif b["term"] and "return" in b["term"]:
+            rets.append(i)
+    if not through or not rets:
+        return False
+    okk = all(gcfg.all_paths_pass(0, [r], through)[0] for r in rets if r in gcfg.reachable(0))
+    memo[path] = okk
+    return okk
+
+
 def teardown_rule(rep, prog):
     rid = rep.rule("R1", "every path of radar::main that returns Ok(()) after the terminal was put into raw mode passes disable_raw_mode, DisableMouseCapture and show_cursor")
     fn = prog.fns.get("radar::main")
@@ -55,9 +85,12 @@ def teardown_rule(rep, prog):
         return
     cfg = cfg_of(fn)
     setup = blocks_calling(fn, lambda p, full, c: p == "crossterm::terminal::enable_raw_mode")
-    raw_off = blocks_calling(fn, lambda p, full, c: p == "crossterm::terminal::disable_raw_mode")
-    cursor = blocks_calling(fn, lambda p, full, c: p.endswith("Terminal::<B>::show_cursor"))
-    mouse_off = blocks_calling(fn, lambda p, full, c: "DisableMouseCapture" in full or closure_mentions(prog, c, "DisableMouseCapture"))
+    def via(pred):
+        # a direct call, or a call of a workspace helper that performs it on each of its successful paths
+        return blocks_calling(fn, lambda p, full, c: pred(p, full, c) or (p in prog.fns and p != fn["path"] and always_performs(prog, p, pred)))
+    raw_off = via(lambda p, full, c: p == "crossterm::terminal::disable_raw_mode")
+    cursor = via(lambda p, full, c: p.endswith("Terminal::<B>::show_cursor"))
+    mouse_off = via(lambda p, full, c: "DisableMouseCapture" in full or closure_mentions(prog, c, "DisableMouseCapture"))
     ok_returns = []
     for i, b in enumerate(fn["blocks"]):
         for s in b["stmts"]:
